@@ -82,4 +82,26 @@ CLAIMS = {
                      "self.__class__, outside the verifier's subset)",
         "note": "no unbounded claim; the reference model in contracts/c34.py is trusted; elements are small ints only.",
     },
+    "C19": {
+        "category": "proof",
+        "text": "Unbounded proof (loop invariant over the backward pass) that TestCase.remove_unused_variables keeps, for "
+                "every statement, exactly its assertions, accessible object and ML info and never invents a binding; the "
+                "export step (TestSuiteWriter._build_test_function) is covered by a bounded stand-in only: every "
+                "assertion is emitted right after its statement, in order, over all test cases of <= 2 statements with "
+                "<= 2 assertions of six kinds each and both exception patterns.",
+        "note": "libcst nodes and used_variables()/_asserted_variables() are opaque (unspecified, assumed pure); the "
+                "export part is bounded, never counted as proved (its forall-forall-exists invariant stays undecided in z3 "
+                "and cvc5); AssertionMinimization and the writer's import logic are not under contract.",
+    },
+    "C21": {
+        "category": "proof",
+        "text": "Unbounded proof that _select_minimal_assertions (greedy set cover + pruning, five loops with invariants "
+                "and a termination measure) returns keys of the kill map whose kill sets cover exactly the mutants killed "
+                "by the full set and never a key with an empty kill set, and that _MutationMetrics.get_score lies in "
+                "[0,1] and equals killed/(created - timed out); the partition of mutants into killed/timed-out/survived "
+                "and the metrics built from it are covered by a bounded stand-in (all lists of <= 5 mutants).",
+        "note": "assertion keys are abstract values (AKey) with structural equality; finite-set cardinality facts "
+                "(subset => <=, strict subset => <) are assumed (A-CARD); 'kept assertions hold on re-execution' depends "
+                "on executor determinism and is outside the proof; the summary part is bounded, never counted as proved.",
+    },
 }
